@@ -1113,6 +1113,8 @@ _des("V1.order", "V1", {"lo": 5, "hi": 2}, "validator")
 _des("V1.tag", "V1", {"tag": ""}, "validator")
 _des("V1.hi", "V1", {"hi": 500}, "validator")
 _des("V1.all", "V1", {"lo": 900, "hi": 500, "tag": ""}, "validator")
+_des("V1.upper_hi", "V1", {"HI": 500}, "validator", "alias")
+_des("V1.upper_all", "V1", {"LO": 900, "HI": 500, "TAG": ""}, "validator", "alias")
 _des("V1Sub.order", "V1Sub", {"lo": 5, "hi": 2, "extra": -1}, "validator")
 _des("DR.a", "DR", {"a": 1}, "depreq", "err_missing_property")
 _des("DR.b", "DR", {"b": 1}, "depreq")
@@ -1303,6 +1305,21 @@ def same_target(cfg_name: str, obs_name: str) -> bool:
     """the configuration operation names the very type the observation is about"""
     cp, op = cfg_name.split("."), obs_name.split(".")
     return len(cp) > 1 and len(op) > 1 and cp[1] == op[1]
+
+
+_WARM: Dict[str, List[str]] = {}
+
+
+def warm_set(obs_name: str, cap: int = 6) -> List[str]:
+    """Other observations about the same type: made (uncompared) before a change so that
+    memos keyed differently from the final observation are filled too."""
+    if obs_name not in _WARM:
+        parts = obs_name.split(".")
+        tgt = parts[1] if len(parts) > 1 else None
+        others = [o for o in GENERATION_OBS if o != obs_name and len(o.split(".")) > 1 and o.split(".")[1] == tgt]
+        others.sort(key=lambda o: (o.split(".")[0] != parts[0], o))
+        _WARM[obs_name] = others[:cap]
+    return _WARM[obs_name]
 
 
 def related(cfg_name: str, obs_name: str) -> bool:
